@@ -71,7 +71,7 @@ class St:
 
 
 class Sched:
-    def __init__(self, seed, max_steps=400000, max_virtual=600.0):
+    def __init__(self, seed, max_steps=3000000, max_virtual=600.0, max_idle_virtual=120.0):
         self.rng = random.Random(seed)
         self.seed = seed
         self.now = 1000.0
@@ -92,9 +92,16 @@ class Sched:
         self.ledger = collections.Counter()
         self.thread_excs = []
         self.last_progress_now = self.now
+        self.max_idle_virtual = max_idle_virtual
+        self.last_progress_step = 0
 
     # -- tracing --
+    PROGRESS = ('q.put', 'q.get', 'user', 'iter.next', 'yield', 'start', 'thread-end', 'ask', 'draw')
+
     def rec(self, *ev):
+        if ev and ev[0] in self.PROGRESS:
+            self.last_progress_now = self.now
+            self.last_progress_step = self.steps
         if self.tracing:
             self.trace.append((self.steps, round(self.now - self.t0, 6), self.cur.role if self.cur else '?') + ev)
 
@@ -178,6 +185,8 @@ class Sched:
             self.now = max(self.now, min(dls))
             if self.now - self.t0 > self.max_virtual:
                 self._fail('livelock', f'virtual time budget {self.max_virtual}s exceeded; ' + self.describe())
+            if self.now - self.last_progress_now > self.max_idle_virtual and self.steps - self.last_progress_step > 50000:
+                self._fail('livelock', f'no protocol event for {self.max_idle_virtual} virtual seconds and 50000 scheduling steps; ' + self.describe())
         nxt = cands[0] if len(cands) == 1 else self.rng.choice(cands)
         if nxt is not me:
             self.cur = nxt
